@@ -54,7 +54,8 @@ Why(r) == IF r.pred = "mixed" THEN "the model predicts different outcomes for di
           ELSE ""
 Decisive(r) == Why(r) = ""
 
-OpsAfter(r, g) == {k \in 1..NOps(r) : r.ops[k].e > g}
+\* (a Touch is not a change of the configuration: it does not count as "the last change")
+OpsAfter(r, g) == {k \in 1..NOps(r) : r.ops[k].e > g /\ r.ops[k].op # "Touch"}
 Class(r) ==
     IF Len(r.signals) = 0 THEN "no_notification_at_all"
     ELSE LET g == r.signals[Len(r.signals)].t IN
